@@ -831,6 +831,49 @@ def late_registered_ramp_kinds(M, rec, rng, n_nets, before_case=None, engine_kin
                 M.MeteredOnRamp.register(Feeder)
 
 
+def user_node_rules(M, rec, rng, n_nets, before_case=None, engine_kinds=("numpy",), symvals=None):
+    """Networks with a user-defined NODE kind that has its own node rule (an exit taking a share of the flow at the node) at
+    plain joints, merges, bifurcations and on-ramp nodes alike: the rule of the node object applies wherever it sits."""
+    import copy
+
+    from vf.refmodel import topology
+
+    NE, CE = drive.engines(M)
+    g = G.NetGen(rng)
+    for it in range(n_nets):
+        _s, desc = g.network(("chain", "ramp", "merge", "bifurcation", "random", "chain")[it % 6])
+        desc = copy.deepcopy(desc)
+        ins, outs, org, dst = topology(desc)
+        inner = [n_ for n_ in desc["nodes"] if ins[n_] and outs[n_]]
+        if not inner:
+            continue
+        plain = [n_ for n_ in inner if len(ins[n_]) == 1 and len(outs[n_]) == 1 and n_ not in org]
+        chosen = set(rng.sample(inner, rng.randint(1, len(inner))))
+        if plain:
+            chosen.add(rng.choice(plain))
+        desc["node_off"] = {n_: round(rng.uniform(0.05, 0.4), 3) for n_ in sorted(chosen)}
+        built = D.build(M, desc, D.random_ops(desc, rng))
+        rec.count("networks_with_a_user_defined_node_rule")
+        for k in range(2):
+            kind = engine_kinds[(it + k) % len(engine_kinds)]
+            _, vals = g.values(desc, "interior", allow_inf=False)
+            pars = g.pars()
+            case = {"desc": desc, "vals": vals, "pars": pars, "opts": {}, "engine": kind}
+            if before_case:
+                before_case(case, built)
+            via = drive.pick_via(rng, 0.3)
+            try:
+                if kind == "numpy":
+                    drive.do_step(built.net, via, rng=rng, init_conditions=drive.np_init(built, vals, "vec1"), engine=NE(), **drive.step_pars(pars))
+                else:
+                    symvals.clear()
+                    ic, _syms = drive.sym_init(M, built, kind, symvals, vals)
+                    drive.do_step(built.net, via, rng=rng, init_conditions=ic, engine=CE(kind), **drive.step_pars(pars))
+                rec.count("steps_with_a_user_defined_node_rule")
+            except Exception:
+                rec.count("steps_with_a_user_defined_node_rule_raised")
+
+
 def closed_loop(M, rec, rng, n_sims, steps, on_step=None, before_case=None):
     """Closed-loop NumPy simulations: next states fed back, peaked demand profiles,
     piecewise-constant random controls."""
